@@ -65,7 +65,7 @@ func installVerifHooks() {
 			}
 			return
 		}
-		if strings.HasPrefix(point, "blk.") {
+		if strings.HasPrefix(point, "blk.") || strings.HasPrefix(point, "ds.") {
 			gatePoint(point, id)
 		}
 	}
